@@ -654,7 +654,13 @@ fn value_layouts(cfg: &Cfg) -> Report {
                 );
             }
         };
-        match cx.idx % 4 {
+        match cx.idx % 5 {
+            4 => {
+                let a = crate::tables::gen::gen_error_data(&mut r);
+                let want = crate::tables::reference::error_data(&a);
+                cmp(cx, "hest::GenericErrorData", &to_vec(&crate::tables::real::build_error_data(&a)), &want, format!("{:?}", a));
+                cx.rep.distinct(&format!("{:?}", a));
+            }
             0 => {
                 let g = gen_gas(&mut r);
                 let want = crate::tables::reference::gas(&g);
